@@ -261,6 +261,13 @@ class DimensionedItem:
     def _check_axis_vs_dimension(self) -> None:
         """Check that the number of axes matches the number of dimensions defined for the EFLRItem."""
 
+        # this is the first step of the checks made at every write: a dimension derived from the values at an earlier
+        # pass (a failed write, a write of other values) describes those values - drop it, unless it has been assigned
+        # anew in the meantime
+        if getattr(self, '_n_dimension_assignments_at_derivation', None) == self.dimension.n_value_assignments:
+            self.dimension._value = None
+        self._n_dimension_assignments_at_derivation = None
+
         axs = self.axis.value
         dims = self.dimension.value
 
@@ -301,3 +308,4 @@ class DimensionedItem:
                                    f"the specified dimensionality: {self.dimension.value}")
         else:
             self.dimension.value = dim_from_value
+            self._n_dimension_assignments_at_derivation = self.dimension.n_value_assignments
